@@ -95,6 +95,15 @@ var harnessIntrinsics = map[string]intrinsic{
 		in.observed = append(in.observed, args[0].(string)+"="+in.render(args[1]))
 		return nil
 	},
+	// vcapture() starts capturing what the code under test prints; vcaptured() returns it
+	"vcapture": func(in *Interp, _ *ssa.Function, args []Value) Value {
+		in.userState["stdout"] = []*sym.Term(nil)
+		return nil
+	},
+	"vcaptured": func(in *Interp, _ *ssa.Function, args []Value) Value {
+		b, _ := in.userState["stdout"].([]*sym.Term)
+		return mkStr(b)
+	},
 	// vconcrete(x) forks over the feasible values of x
 	"vconcrete": func(in *Interp, _ *ssa.Function, args []Value) Value {
 		return in.concretize(args[0].(*sym.Term), 256)
@@ -497,6 +506,28 @@ func init() {
 	reg("sort.Slice", sortSlice("pdqsort_func"))
 	reg("sort.SliceStable", sortSlice("stable_func"))
 
+	// --- reflect (minimal): types are carried as opaque go/types values ---
+	rtype := func(in *Interp, t types.Type) Value {
+		rp := in.P.Pkgs["reflect"]
+		if rp == nil || rp.Type("rtype") == nil {
+			in.unsupported("package reflect not loaded")
+		}
+		return Iface{T: types.NewPointer(rp.Type("rtype").Object().Type()), V: Opaque{t}}
+	}
+	reg("reflect.TypeFor", func(in *Interp, fn *ssa.Function, a []Value) Value {
+		return rtype(in, fn.TypeArgs()[0])
+	})
+	reg("reflect.TypeOf", func(in *Interp, fn *ssa.Function, a []Value) Value {
+		i := a[0].(Iface)
+		if i.T == nil {
+			return Iface{}
+		}
+		return rtype(in, i.T)
+	})
+	reg("(*reflect.rtype).String", func(in *Interp, fn *ssa.Function, a []Value) Value {
+		return types.TypeString(a[0].(Opaque).X.(types.Type), nil)
+	})
+
 	// --- fmt ---
 	reg("fmt.Sprintf", func(in *Interp, _ *ssa.Function, a []Value) Value {
 		return in.sprintf(a[0], a[1].([]Value))
@@ -507,9 +538,82 @@ func init() {
 	reg("fmt.Sprintln", func(in *Interp, _ *ssa.Function, a []Value) Value {
 		return in.sprint(a[0].([]Value), true)
 	})
+	writeTo := func(in *Interp, w Value, str Value) {
+		wi := w.(Iface)
+		m := in.findMethod(wi.T, "Write")
+		if m == nil {
+			in.unsupported("fmt.Fprint*: writer %v has no Write method", wi.T)
+		}
+		b := strBytes(str)
+		bs := make([]Value, len(b))
+		for i := range b {
+			bs[i] = b[i]
+		}
+		in.callFn(m, []Value{wi.V, bs}, nil, in.curFrame)
+	}
+	reg("fmt.Fprintf", func(in *Interp, _ *ssa.Function, a []Value) Value {
+		s := in.sprintf(a[1], a[2].([]Value))
+		writeTo(in, a[0], s)
+		return Tuple{sym.BV(uint64(strLen(s)), 64), Iface{}}
+	})
+	reg("fmt.Fprintln", func(in *Interp, _ *ssa.Function, a []Value) Value {
+		s := in.sprint(a[1].([]Value), true)
+		writeTo(in, a[0], s)
+		return Tuple{sym.BV(uint64(strLen(s)), 64), Iface{}}
+	})
+	reg("fmt.Fprint", func(in *Interp, _ *ssa.Function, a []Value) Value {
+		s := in.sprint(a[1].([]Value), false)
+		writeTo(in, a[0], s)
+		return Tuple{sym.BV(uint64(strLen(s)), 64), Iface{}}
+	})
+	reg("fmt.Println", func(in *Interp, _ *ssa.Function, a []Value) Value {
+		s := in.sprint(a[0].([]Value), true)
+		in.captureWrite(strBytes(s))
+		return Tuple{sym.BV(uint64(strLen(s)), 64), Iface{}}
+	})
+	reg("fmt.Printf", func(in *Interp, _ *ssa.Function, a []Value) Value {
+		s := in.sprintf(a[0], a[1].([]Value))
+		in.captureWrite(strBytes(s))
+		return Tuple{sym.BV(uint64(strLen(s)), 64), Iface{}}
+	})
+	// every *os.File write goes to the capture buffer (os is not initialised; Stdout/Stderr are nil files)
+	reg("(*os.File).Write", func(in *Interp, _ *ssa.Function, a []Value) Value {
+		bs := a[1].([]Value)
+		b := make([]*sym.Term, len(bs))
+		for i := range bs {
+			b[i] = bs[i].(*sym.Term)
+		}
+		in.captureWrite(b)
+		return Tuple{sym.BV(uint64(len(b)), 64), Iface{}}
+	})
+	reg("(*os.File).WriteString", func(in *Interp, _ *ssa.Function, a []Value) Value {
+		b := strBytes(a[1])
+		in.captureWrite(b)
+		return Tuple{sym.BV(uint64(len(b)), 64), Iface{}}
+	})
+	reg("os.Getwd", func(in *Interp, _ *ssa.Function, a []Value) Value {
+		return Tuple{"/verif-cwd", Iface{}}
+	})
 	reg("fmt.Errorf", func(in *Interp, _ *ssa.Function, a []Value) Value {
 		return in.newError(in.sprintf(a[0], a[1].([]Value)))
 	})
+}
+
+// findMethod looks up an exported method by name in the method set of T.
+func (in *Interp) findMethod(T types.Type, name string) *ssa.Function {
+	ms := in.P.Prog.MethodSets.MethodSet(T)
+	for i := 0; i < ms.Len(); i++ {
+		sel := ms.At(i)
+		if sel.Obj().Name() == name {
+			return in.P.Prog.MethodValue(sel)
+		}
+	}
+	return nil
+}
+
+func (in *Interp) captureWrite(b []*sym.Term) {
+	old, _ := in.userState["stdout"].([]*sym.Term)
+	in.userState["stdout"] = append(append([]*sym.Term(nil), old...), b...)
 }
 
 func (in *Interp) newError(msg Value) Value {
@@ -565,10 +669,10 @@ func (in *Interp) fmtArg(v Value, verb byte) []*sym.Term {
 		}
 		// error / Stringer
 		if verb == 'v' || verb == 's' || verb == 'q' {
-			if m := in.P.Prog.LookupMethod(i.T, nil, "Error"); m != nil && m.Signature.Params().Len() == 0 {
+			if m := in.findMethod(i.T, "Error"); m != nil && m.Signature.Params().Len() == 0 {
 				return in.fmtArg(in.callFn(m, []Value{i.V}, nil, in.curFrame), verb)
 			}
-			if m := in.P.Prog.LookupMethod(i.T, nil, "String"); m != nil && m.Signature.Params().Len() == 0 && m.Signature.Results().Len() == 1 {
+			if m := in.findMethod(i.T, "String"); m != nil && m.Signature.Params().Len() == 0 && m.Signature.Results().Len() == 1 {
 				return in.fmtArg(in.callFn(m, []Value{i.V}, nil, in.curFrame), verb)
 			}
 		}
